@@ -35,6 +35,7 @@ const (
 	Dup        Outcome = "dup"        // reply sent twice
 	Foreign    Outcome = "foreign"    // an extra reply under a foreign command id before the real one
 	Dies       Outcome = "dies"       // the task terminates (TASK_FAILED) instead of answering
+	OKEarly    Outcome = "ok_early"   // like ok, but the reply is on its way to the core before the MESSAGE call returns
 )
 
 type Agent struct {
@@ -719,6 +720,15 @@ func (m *Master) transition(fw string, cmd *controlcommands.MesosCommand_Transit
 	}
 	if out == Unsendable {
 		return false
+	}
+	if out == OKEarly {
+		// a very fast executor (or a slow answer of the master to the MESSAGE call): the core processes the reply while its
+		// send call has not returned yet
+		m.setO2(t.ID, cmd.Destination)
+		m.rec("MReply", "cmd", cmd.Id.String(), "task", t.ID, "class", cls, "ok", true, "state", cmd.Destination, "early", true)
+		m.reply(t, controlcommands.NewMesosCommandResponse_Transition(cmd, nil, cmd.Destination, t.ID))
+		time.Sleep(40 * time.Millisecond)
+		return true
 	}
 	go func() {
 		time.Sleep(m.Latency / 5)
